@@ -200,6 +200,8 @@ class Tr:
         return 'format(%s, %s)' % (val, spec)
 
     def x_AttributeNode(s, n):
+        if n.attribute == 'base':
+            return '_sx_.mvbase(%s)' % s.x(n.obj)     # memoryview.base -> the array the view was taken from
         return '%s.%s' % (s.x(n.obj), n.attribute)
 
     def binop(s, n):
